@@ -381,6 +381,7 @@ func lexCase(ctx *report.Ctx, c *explore.Chooser, partName, input string, nontri
 	if pan != nil {
 		// other panics of the lexer are C05's subject as well, but an empty input is known to be handled by the stream
 		ctx.Count("lexer_panics_other", 1)
+		ctx.Note("lexer panic (not the mixed-indentation one) on %q: %v", input, pan)
 		return
 	}
 	in, de := 0, 0
